@@ -20,6 +20,7 @@ structure TMsg where
   size     : Nat
   deferred : Nat      -- milliseconds (0 = not deferred)
   place    : Place
+  env      : Env := {}
 deriving DecidableEq, Repr
 
 structure NChan where
@@ -43,6 +44,8 @@ structure Topic where
   acked    : List Nat := []
   pumped   : List Nat := []
   unacked  : List Nat := []
+  /-- ghost: the envelope (timestamp, body) every id was published with -/
+  envlog   : List (Nat × Env) := []
 deriving DecidableEq, Repr
 
 structure Sub where
@@ -75,10 +78,10 @@ inductive Op where
   | disconnect (k : Nat)
   | rdy (k : Nat) (n : Option Int)             -- `none`: the count did not parse
   | cls (k : Nat)
-  | pub (t size : Nat)
-  | mpub (t : Nat) (sizes : List Nat)
-  | mpubFail (t : Nat) (sizes : List Nat) (j : Nat)   -- the (j+1)-th backend write fails
-  | dpub (t size delay : Nat)
+  | pub (t size : Nat) (env : Env := {})
+  | mpub (t : Nat) (sizes : List Nat) (envs : List Env := [])
+  | mpubFail (t : Nat) (sizes : List Nat) (j : Nat) (envs : List Env := [])   -- the (j+1)-th backend write fails
+  | dpub (t size delay : Nat) (env : Env := {})
   | pumpTopic (t id : Nat) (kept : Bool) (pris : List (Nat × Int))
   | deliver (k id : Nat) (now : Int)
   | sampleDrop (k id : Nat)
@@ -126,15 +129,17 @@ def placeOf (t : Topic) (deferred : Nat) : Place :=
   if t.memCap > 0 then (if memLenT t < t.memCap then .mem else .disk)
   else if deferred > 0 && pumpEnabled t then .either else .disk
 
-def putT (t : Topic) (id size deferred : Nat) : Topic :=
+def putT (t : Topic) (id size deferred : Nat) (env : Env := {}) : Topic :=
   let p := placeOf t deferred
-  -- a message written to disk loses its deferral (`writeMessageToBackend` does not encode it)
-  { t with queue := ⟨id, size, if p == .disk then 0 else deferred, p⟩ :: t.queue }
+  -- a message written to disk loses its deferral (`writeMessageToBackend` does not encode it);
+  -- timestamp, id and body are what `WriteTo` / `decodeMessage` carry
+  { t with queue := ⟨id, size, if p == .disk then 0 else deferred, p, env⟩ :: t.queue,
+           envlog := (id, env) :: t.envlog }
 
 /-- `Topic.PutMessages` for a list of body sizes, ids counted up from `id` -/
-def putMany (t : Topic) (id : Nat) : List Nat → Topic
-  | [] => t
-  | sz :: rest => putMany (putT t id sz 0) (id + 1) rest
+def putMany (t : Topic) (id : Nat) : List Nat → List Env → Topic
+  | [], _ => t
+  | sz :: rest, envs => putMany (putT t id sz 0 (envs.headD {})) (id + 1) rest envs.tail
 
 def idsFrom (id : Nat) : Nat → List Nat
   | 0 => []
@@ -164,9 +169,9 @@ def fanOne (conf : NConf) (pump : List Nat) (m : TMsg) (kept : Bool) (pris : Lis
   if !pump.contains nc.cid then nc else
   if m.deferred > 0 && kept then
     match pris.lookup nc.cid with
-    | some pri => { nc with ch := (Chan.step conf.chan nc.ch (.putDeferred m.id pri)).1 }
-    | none => { nc with ch := (Chan.step conf.chan nc.ch (.putDeferred m.id 0)).1 }
-  else { nc with ch := (Chan.step conf.chan nc.ch (.put m.id)).1 }
+    | some pri => { nc with ch := (Chan.step conf.chan nc.ch (.putDeferred m.id pri m.env)).1 }
+    | none => { nc with ch := (Chan.step conf.chan nc.ch (.putDeferred m.id 0 m.env)).1 }
+  else { nc with ch := (Chan.step conf.chan nc.ch (.put m.id m.env)).1 }
 
 def keptAllowed (m : TMsg) (kept : Bool) : Bool :=
   if m.deferred == 0 then true
@@ -260,32 +265,28 @@ def step (s : State) : Op → State × Out
           | none => false
         if closing then (s, .ok) else connStep s k (.rdy k (-1))
   | .cls k => connStep s k (.cls k)
-  | .pub t size =>
+  | .pub t size env =>
     let s := ensureTopic s t
     ({ s with topics := updT s.topics t (fun tp =>
-        { putT tp s.nextId size 0 with msgCount := tp.msgCount + 1, msgBytes := tp.msgBytes + size,
-                                       acked := s.nextId :: tp.acked }),
+        { putT tp s.nextId size 0 env with msgCount := tp.msgCount + 1, msgBytes := tp.msgBytes + size, acked := s.nextId :: tp.acked }),
               nextId := s.nextId + 1 }, .ids [s.nextId])
-  | .dpub t size delay =>
+  | .dpub t size delay env =>
     let s := ensureTopic s t
     ({ s with topics := updT s.topics t (fun tp =>
-        { putT tp s.nextId size delay with msgCount := tp.msgCount + 1, msgBytes := tp.msgBytes + size,
-                                           acked := s.nextId :: tp.acked }),
+        { putT tp s.nextId size delay env with msgCount := tp.msgCount + 1, msgBytes := tp.msgBytes + size, acked := s.nextId :: tp.acked }),
               nextId := s.nextId + 1 }, .ids [s.nextId])
-  | .mpub t sizes =>
+  | .mpub t sizes envs =>
     let s := ensureTopic s t
     ({ s with topics := updT s.topics t (fun tp =>
-        { putMany tp s.nextId sizes with msgCount := tp.msgCount + sizes.length, msgBytes := tp.msgBytes + sizes.sum,
-                                         acked := (idsFrom s.nextId sizes.length).reverse ++ tp.acked }),
+        { putMany tp s.nextId sizes envs with msgCount := tp.msgCount + sizes.length, msgBytes := tp.msgBytes + sizes.sum, acked := (idsFrom s.nextId sizes.length).reverse ++ tp.acked }),
               nextId := s.nextId + sizes.length }, .ids (idsFrom s.nextId sizes.length))
-  | .mpubFail t sizes j =>
+  | .mpubFail t sizes j envs =>
     -- `PutMessages`: the put of message j fails → the j messages before it stay enqueued and are
     -- counted, the publish is answered with E_MPUB_FAILED (ids for all messages were generated)
     let s := ensureTopic s t
     if j ≥ sizes.length then (s, .reject "bad-j") else
     ({ s with topics := updT s.topics t (fun tp =>
-        { putMany tp s.nextId (sizes.take j) with msgCount := tp.msgCount + j, msgBytes := tp.msgBytes + (sizes.take j).sum,
-                                                      unacked := (idsFrom s.nextId j).reverse ++ tp.unacked }),
+        { putMany tp s.nextId (sizes.take j) envs with msgCount := tp.msgCount + j, msgBytes := tp.msgBytes + (sizes.take j).sum, unacked := (idsFrom s.nextId j).reverse ++ tp.unacked }),
               nextId := s.nextId + sizes.length }, .err "E_MPUB_FAILED" true)
   | .pumpTopic t id kept pris =>
     match findT s.topics t with
